@@ -509,6 +509,18 @@ def stratified(prog):
     """Predicate-level stratification of the program text (conservative: goals
     inside findall/all/call/forall/... count as negative dependencies).  Returns
     True / False, or None when the program cannot be parsed."""
+    r = dep_analysis(prog)
+    return None if r is None else r["stratified"]
+
+
+def has_loop(prog):
+    """True when some predicate of the program depends on itself (predicate-level
+    dependency graph has a cycle); False for an acyclic program; None = unparsable."""
+    r = dep_analysis(prog)
+    return None if r is None else r["loop"]
+
+
+def dep_analysis(prog):
     try:
         from problog.program import PrologString, PrologFile
         from problog.logic import Term, And, Or, Not, Clause, AnnotatedDisjunction, Var
@@ -553,13 +565,12 @@ def stratified(prog):
                 if new != reach[n]:
                     reach[n] = new
                     changed = True
+        strat = True
         for n in nodes:
             for d, neg in deps[n]:
-                if neg and (d == ("?var", True) and False):
-                    return False
                 if neg and d in nodes and (d == n or n in reach[d]):
-                    return False
-        return True
+                    strat = False
+        return {"stratified": strat, "loop": any(n in reach[n] for n in nodes)}
     except BaseException as e:  # noqa
         if isinstance(e, (KeyboardInterrupt, SystemExit)):
             raise
@@ -609,8 +620,11 @@ def judge(prog, base, r, lines=None):
         # the engine emits disj(children=(0,)) and break_cycles trips `assert is_probabilistic`
         return ("violation", "%s:assertion-break-cycles-evidence-on-cyclic-true-atom-under-some-orders" % fam, d)
     if "NegativeCycle" in errs and len(errs) == 2:
-        strat = stratified(prog)
-        if strat:
+        # known defect: the cycle detector takes an active, not yet completed goal of a POSITIVE LOOP for a
+        # cycle through the negation.  A NegativeCycle on a program whose dependency graph is acyclic is never
+        # in this class.
+        da = dep_analysis(prog)
+        if da and da["stratified"] and da["loop"]:
             return ("violation", "%s:negative-cycle-raised-on-stratified-program-under-some-orders" % fam, d)
     if base["status"] == "err" and r["status"] == "err":
         if lines is not None:
